@@ -1733,16 +1733,20 @@ def Module.wf (m : Module) : Bool :=
   m.major == supportedMajor && decide (m.sections.length < 65536)
     && m.sections.all (Section.wf m.minor) && lenOk (encodedSize m.minor m.sections)
 
-/-- the canonical-offsets clause of `TypeTable.wf`, for any section -/
-def sectionOffsetsCanonical (minor : UInt16) : SectionData → Bool
+/-- the decoder's only freedom: where the first type entry starts.  `true` when every type table of
+the module has no entries or its first offset is `4 + 4·count` (right behind the offset table). -/
+def sectionFirstOffsetOk (minor : UInt16) : SectionData → Bool
   | .typeTable t =>
-    decide (t.offsets = if minor ≥ 1 then computeTypeOffsets (t.entries.map encTypeEntry) else [])
+    if minor ≥ 1 then
+      match t.offsets with
+      | [] => true
+      | o :: _ => o.toNat == 4 + 4 * t.entries.length
+    else true
   | _ => true
 
 
-/-- every type table of the module carries the offsets `encode` would write -/
-def Module.offsetsCanonical (m : Module) : Bool := m.sections.all fun s => sectionOffsetsCanonical m.minor s.data
-
+/-- every type table of the module starts its first entry right behind the offset table -/
+def Module.firstOffsetsOk (m : Module) : Bool := m.sections.all fun s => sectionFirstOffsetOk m.minor s.data
 
 /-! ## example data (non-vacuity examples and the counterexample of Props/C11.lean) -/
 
